@@ -94,6 +94,14 @@ def impl_object_history(a, dt, how):
         s.reset_values(a[:max(2, len(a) // 2)])
     elif how == 'add_series':
         s.add_series(a - other)
+    elif how == 'running_average':          # writes the record without going through reset_values
+        s.reset_values(a)
+        _ = (s.velocity, s.displacement, s.pgv, s.pgd, s.pga)
+        s.running_average(3)
+    elif how == 'rebase_displacement':      # in-place edit of the record followed by clear_cache
+        s.reset_values(a)
+        _ = (s.velocity, s.displacement, s.pgv, s.pgd, s.pga)
+        s.rebase_displacement()
     else:
         s.add_constant(-1.0)
         s.add_series(a * 0.5)
@@ -125,7 +133,7 @@ def impl_object_rect_after_reads(a, dt):
     return v, d, [float(s.pga)] + want
 
 
-HOWS = ['reset_values', 'reset_values(shorter)', 'add_series', 'add_constant+add_series']
+HOWS = ['reset_values', 'reset_values(shorter)', 'add_series', 'add_constant+add_series', 'running_average', 'rebase_displacement']
 
 
 def gen(rng, tier):
@@ -165,7 +173,8 @@ def gen(rng, tier):
             site = 'calc_velo_and_disp_from_accel_arr' + ('' if dty is float else '[%s record]' % (dty.__name__ if dty in (list, tuple) else np.dtype(dty).name)) + ('[trap=np.True_]' if as_np_bool else '')
         # float32 storage: numpy integrates in single precision (relative rounding 6e-8 per operation, accumulated over the
         # record), which is rounding, not a defect: compared at 1e-3 of the series peak instead of exactly
-        out.append((site, trap, dt, a, r, 1e-3 if 'float32' in site else 0))
+        # after running_average / rebase_displacement the record is no longer made of dyadic numbers: tolerance domain
+        out.append((site, trap, dt, a, r, 1e-3 if 'float32' in site else (1e-10 if ('running_average' in site or 'rebase_displacement' in site) else 0)))
     for k in range(n_tol):
         n = gens.small_len(rng, 2, maxlen)
         a, style = gens.float_record(rng, n)
